@@ -17,7 +17,8 @@ import Lattigo.Model.Bootstrap
   * `needed res= s2c= c2s= m1= rsv= logp=` → `name/minLevelQ/levelP;…` per key kind (`*` = any LevelP)
   * `scaleconst q0= evalmod= ratio= logscale= k= ci=` → `round(log2 Q0),-log2 qDiv,log2 ScalingFactor,log2 StCScaling,C2SScaling num/den`
   * `scaledown qs= logscale= ratio= level=` → `level,scaleUpBigint,product of rescaled primes` or `err` (`Evaluator.ScaleDown`)
-  * `dft_layers enc= logSlots=` → the fully split factorisation: per matrix `diag:codes;…` (codes: exponent of ζ, 4n = zero), matrices joined by `/`
+  * `dft_layers enc= logSlots= [logN= repack= bitrev=]` → the fully split factorisation: per matrix `diag:codes;…` (codes: exponent of ζ, 4n = zero), matrices joined by `/`
+  * `mod1_gain da= inv= logs=` → log2 of the gain of `EvaluateAndScaleNew(ct, 2^logs)` over `EvaluateNew(ct)`
   * `stages res= s2c= c2s= m1= rsv=` → levels after ModUp, CoeffsToSlots, EvalMod, SlotsToCoeffs
   * `output res= s2c= c2s= m1= rsv= iter= logscale=` → `level,scale`
   * `probe …` → `holds`
@@ -140,19 +141,28 @@ def handle (toks : List String) : String :=
   | "dft_layers" :: rest =>
     match boolArg rest "enc", natArg rest "logSlots" with
     | some enc, some ls =>
+      let logN := (natArg rest "logN").getD (ls + 1)
+      let repack := (boolArg rest "repack").getD false
+      let bitrev := (boolArg rest "bitrev").getD false
       let n := 2 ^ ls
-      let codes := fun (f : Nat → RootEnt) => (List.range n).map fun x => (f x).code n
-      let mats := (List.range ls).map fun t =>
-        let l := dftLayer enc ls (ls - t)
-        let r2 := n - l.rot
-        let ds : List (Nat × List Nat) :=
-          if l.rot = r2 then
-            [(0, codes l.a), (l.rot, codes fun x => if l.b x = .zero then l.c x else l.b x)]
-          else [(0, codes l.a), (l.rot, codes l.b), (r2, codes l.c)]
-        ";".intercalate ((ds.map fun dv => (dv.1, toString dv.1 ++ ":" ++ showVec dv.2)).toArray.qsort (fun x y => x.1 < y.1)
-          |>.toList.map (·.2))
+      let d : MatLit := { encode := enc, logSlots := ls, levels := List.replicate ls 1, repack := repack,
+                          bitReversed := bitrev, logBSGS := 1 }
+      let len := if d.sparseRepack logN then 2 * n else n
+      let layer : Nat → Layer RootSum := fun lvl =>
+        let l := dftLayerBR enc bitrev ls lvl
+        { rot := l.rot, a := fun x => .ent (l.a x), b := fun x => .ent (l.b x), c := fun x => .ent (l.c x) }
+      let code : RootSum → Nat := fun
+        | .ent e => e.code n
+        | .bad => 4 * n + 1
+      let mats := (genMatricesFull d logN (.ent .zero) (.ent (.pos 0)) (.ent (.pos n)) layer).map fun M =>
+        ";".intercalate ((M.map fun iv => (iv.1, toString iv.1 ++ ":" ++ showVec ((List.range len).map fun x => code (iv.2 x)))).toArray.qsort
+          (fun x y => x.1 < y.1) |>.toList.map (·.2))
       "/".intercalate mats
     | _, _ => badOp
+  | "mod1_gain" :: rest =>
+    match natArg rest "da", natArg rest "inv", (kv? rest "logs").bind parseInt? with
+    | some da, some inv, some k => toString (mod1GainLog da (inv != 0) k)
+    | _, _, _ => badOp
   | "stages" :: rest =>
     match natArg rest "m1" with
     | some m1 =>
